@@ -244,8 +244,9 @@ def run_case(case):
             from .. import preempt
             pre = preempt.Preempter(world.sim, prob=0.5, park_prob=0.3, park_max=0.2,
                                     funcs={'write_meta', 'get_file', '_get_storage_file',
-                                           'process', 'storage_scp'},
-                                    files=('applicationentity.py', '__init__.py'))
+                                           'process', 'storage_scp', 'storage_scu', 'encode',
+                                           'send'},
+                                    files=('applicationentity.py', '__init__.py', 'sopclass.py'))
             pre.install()
         for c in range(case['nclients']):
             world.spawn(lambda c=c: client(c), 'client%d' % c)
